@@ -116,10 +116,15 @@ func runScript(ops [][]any) (o Obs) {
 		case "html":
 			fmt.Fprintf(&sb, "$w->html(%s);\n", q(str(op[1])))
 		case "json":
-			// payload is the JSON text of a string; the script passes the string itself
-			var s string
-			_ = json.Unmarshal([]byte(str(op[1])), &s)
-			fmt.Fprintf(&sb, "$w->json(%s);\n", q(s))
+			// payload is the JSON text of a list of strings; the script passes the list itself
+			// (json()'s parameter is declared object|array and that is enforced)
+			var items []string
+			_ = json.Unmarshal([]byte(str(op[1])), &items)
+			parts := make([]string, len(items))
+			for i, it := range items {
+				parts[i] = q(it)
+			}
+			fmt.Fprintf(&sb, "$w->json([%s]);\n", strings.Join(parts, ", "))
 		case "redirect":
 			fmt.Fprintf(&sb, "$w->redirect(%s, %d);\n", q(str(op[1])), num(op[2]))
 		case "nocontent":
